@@ -493,7 +493,7 @@ PROPS["C11"] = {
 # ------------------------------------------------------------------------------------------ C06
 PROPS["C06"] = {
     "level": "fault_enumeration",
-    "rule": "model: every interleaving of <= 3 calls (pruning and non-pruning inserts, failing calls) with transaction ageing, flush and a crash "
+    "rule": "model: every interleaving of <= 3 calls (pruning and non-pruning inserts, removal of the document, failing calls) with transaction ageing, flush and a crash "
             "before any table access; implementation: seeded histories (5-10 calls: local / remote inserts that prune or not, "
             "prefix deletes, peers, policies, removal, flush, snapshot reads, open/close over 2 documents); for EVERY call and "
             "EVERY table access of that call the history is re-run with the age-based commit forced right before that access, "
@@ -504,11 +504,12 @@ PROPS["C06"] = {
                     "live states are taken from a baseline run of the same deterministic history (clock pinned by hook H2)"],
     "models": [
         {"name": "storetx", "module": "MCStoreTx", "workers": 6,
-         "consts": dict(ENTRY, Universe="<- UTx", MaxCalls=3, PutAtomic="TRUE", FailKeepsTx="TRUE"),
-         "invariants": ["CrashStateIsBoundary", "DurableIsNormal", "LiveIsAcked"]},
+         "consts": dict(ENTRY, Universe="<- UTx", MaxCalls=3, PutAtomic="TRUE", FailKeepsTx="TRUE", RemoveAtomic="TRUE"),
+         "invariants": ["CrashStateIsBoundary", "DurableIsNormal", "LiveIsAcked", "DurableDerivedAgree"]},
     ],
     "sensitivity": [{"base": "storetx", "flip": {"PutAtomic": "FALSE"}},
-                    {"base": "storetx", "flip": {"FailKeepsTx": "FALSE"}}],
+                    {"base": "storetx", "flip": {"FailKeepsTx": "FALSE"}},
+                    {"base": "storetx", "flip": {"RemoveAtomic": "FALSE"}}],
     "drives": [
         {"name": "storetx", "cmd": "storetx", "args": {"n": {"quick": 14, "thorough": 400}},
          "trace_module": "StoreTxTrace", "trace_consts": dict(ENTRY), "tv_timeout": 3000, "timeout": 7200},
